@@ -94,7 +94,16 @@ def one_run(n=10, batch_size=None, batch_seed=3, max_iter=40, patience=5, atol=1
         model = build_model(n, seed)
         mval = build_model(max(4, n // 2), seed + 100) if validation else None
         stopper = Stopper(max_iter=max_iter, patience=patience, atol=atol, rtol=rtol)
-        if reuse_stopper:
+        if reuse_stopper == "failed":
+            # ... in a call that raised (a misspelt parameter name)
+            try:
+                optim_flat(build_model(n, seed + 7), ["coeff"], optimizer=optax.adam(lr), stopper=stopper, progress_bar=False)
+                ev["first_call_raised"] = False
+            except Exception:  # noqa: BLE001
+                ev["first_call_raised"] = True
+            ev["stopper_patience_after_first_use"] = int(stopper.patience)
+            open(path, "w").close()
+        elif reuse_stopper:
             optim_flat(build_model(n, seed + 7), ["coef"], optimizer=optax.adam(lr), stopper=stopper, progress_bar=False)
             ev["stopper_patience_after_first_use"] = int(stopper.patience)
             os.environ["LIESEL_VERIF_TRACE"] = path
@@ -160,6 +169,7 @@ def run_jobs_list(quick=True):
     jobs = [
         dict(n=10, batch_size=3, max_iter=45, patience=5, validation=True),          # 3 does not divide 10
         dict(n=10, batch_size=None, max_iter=60, patience=5, validation=True, reuse_stopper=True),
+        dict(n=10, batch_size=None, max_iter=60, patience=5, validation=True, reuse_stopper="failed"),
         dict(n=12, batch_size=5, max_iter=40, patience=40, validation=False),         # no early stopping, >= 30 its
         dict(n=10, batch_size=None, max_iter=30, patience=4, atol=0.5, validation=True),
         dict(n=9, batch_size=4, max_iter=25, patience=3, rtol=0.05, atol=0.0, validation=True, prune=False),
